@@ -326,7 +326,7 @@ func (g *gen) routeEntryFor(hostport string, extra bool) string {
 	}
 	s := "<" + uri + params + ">"
 	if extra && g.chance(30) {
-		s = g.displayName() + s
+		s = g.displayNameOf(false) + s
 	}
 	if extra && g.chance(40) {
 		s += ";" + g.alnum(1, 5) + "=" + g.alnum(1, 5)
